@@ -864,6 +864,7 @@ func CheckC10(run *Run) {
 	}
 	var ccs []CoqCase
 	var results []*CaseResult
+	rawObs := make([]*RunnerObsX, len(cases))
 	for i, c := range cases {
 		var o RunnerObsX
 		if err := json.Unmarshal(raw[i], &o); err != nil {
@@ -872,6 +873,7 @@ func CheckC10(run *Run) {
 		if o.Error != "" {
 			run.Fatal("runner error on case %d (%s): %s", i, c.family, o.Error)
 		}
+		rawObs[i] = &o
 		ob := c.observe(b, &o)
 		holds, note := true, ""
 		if o.Panic != "" {
@@ -893,6 +895,16 @@ func CheckC10(run *Run) {
 		results = append(results, cr)
 		ccs = append(ccs, CoqCase{Term: fmt.Sprintf("(%s, %s, %s)", c.coqSource(), c.hook.coq(), c.coqCT()), Obs: ob})
 	}
+	// the emitted TS client on the Go server's answers of this run and on a status x body matrix (c10_tsclient.go)
+	type tscOut struct {
+		note string
+		res  []*CaseResult
+	}
+	tscCh := make(chan tscOut, 1)
+	go func() {
+		n, r := c10TSClient(run, s, req, c10GoResponses(cases, rawObs))
+		tscCh <- tscOut{n, r}
+	}()
 	vs, err := CoqRun(run.WorkDir, "c10", "From Sebuf Require Import Text Json Schema Value Headers Errors.\n", "", "c10_case", "predict_C10", ccs, 16)
 	if err != nil {
 		run.Fatal("model evaluation: %v", err)
@@ -906,6 +918,9 @@ func CheckC10(run *Run) {
 	ts := <-tsCh
 	run.Results = append(run.Results, ts.res...)
 	run.Extra["ts_runtime"] = ts.note
+	tsc := <-tscCh
+	run.Results = append(run.Results, tsc.res...)
+	run.Extra["ts_client_runtime"] = tsc.note
 	run.Extra["error_sources"] = len(c10Errors()) + len(c10RuleSets) + 5
 	run.Extra["hooks"] = len(c10Hooks())
 	dumpResults(run)
